@@ -93,6 +93,20 @@ func notOf(a string) string {
 }
 
 func fragConn(g *Gen, n int, o *Out) {
+	// operands whose selectors have colliding flat renderings ("a/b" vs a → b, "x.y" vs x → y)
+	for i := 0; i < n/10+2; i++ {
+		v1, v2 := []string{"p", "1"}[g.r.Intn(2)], []string{"q", "2"}[g.r.Intn(2)]
+		datum := map[string]interface{}{"labels": map[string]interface{}{"team/env": v1, "team": map[string]interface{}{"env": v2}, "x.y": v1, "x": map[string]interface{}{"y": v2}}}
+		pp := [][2][]string{{{"labels", "team/env"}, {"labels", "team", "env"}}, {{"labels", "x.y"}, {"labels", "x", "y"}}}[g.r.Intn(2)]
+		A := GMatch{Path: pp[0], Op: "eq", Raw: v1, LitStyle: 2}
+		B := GMatch{Path: pp[1], Op: "eq", Raw: v2, LitStyle: 2}
+		for _, e := range []GExpr{GAnd{A, B}, GAnd{B, A}, GNot{GOr{GNot{A}, GNot{B}}}, GOr{GNot{A}, B}} {
+			r, text, ok := evalG(g, o, nil, e, datum)
+			if ok && r != "T" {
+				o.finding(Finding{Property: "C03", Kind: "failing-input", What: "composite of two true operands gives " + r + " (operands are true on their own)", Request: lastReq(o), Detail: text})
+			}
+		}
+	}
 	for i := 0; i < n; i++ {
 		datum, root, paths := datumAndPaths(g, "bexpr")
 		A := g.genExpr(root, "bexpr", paths, 1, false)
@@ -338,6 +352,35 @@ func usesName(e GExpr, name string) bool {
 	return false
 }
 
+// renameRoot renames free occurrences of the selector root `from` to `to`.
+func renameRoot(e GExpr, from, to string) GExpr {
+	rp := func(p []string) []string {
+		if len(p) > 0 && p[0] == from {
+			return append([]string{to}, p[1:]...)
+		}
+		return p
+	}
+	switch n := e.(type) {
+	case GNot:
+		return GNot{renameRoot(n.E, from, to)}
+	case GAnd:
+		return GAnd{renameRoot(n.L, from, to), renameRoot(n.R, from, to)}
+	case GOr:
+		return GOr{renameRoot(n.L, from, to), renameRoot(n.R, from, to)}
+	case GMatch:
+		n.Path = rp(n.Path)
+		return n
+	case GColl:
+		n.Path = rp(n.Path)
+		if n.Def == from || n.Idx == from || n.Val == from {
+			return n
+		}
+		n.Inner = renameRoot(n.Inner, from, to)
+		return n
+	}
+	return e
+}
+
 // bindsName reports whether some quantifier inside e binds name (so that substituting a path
 // rooted at name below it would be captured).
 func bindsName(e GExpr, name string) bool {
@@ -392,6 +435,24 @@ func fragUnroll(g *Gen, n int, o *Out) {
 			}
 			c.Inner = g.genExpr(root, "bexpr", sub, 1, false)
 			o.count("hazard:index-named-as-collection-root")
+		}
+		if g.r.Intn(4) == 0 && len(S.Parts) >= 1 && identRe.MatchString(S.Parts[0]) && !keywords[S.Parts[0]] && !strings.Contains(S.Parts[0], "/") && !bindsName(c.Inner, S.Parts[0]) {
+			// the VALUE name shadows the collection's own root inside the braces
+			old := ""
+			switch c.Mode {
+			case "default":
+				old, c.Def = c.Def, S.Parts[0]
+			case "value":
+				old, c.Val = c.Val, S.Parts[0]
+			case "indexvalue":
+				if c.Idx != S.Parts[0] {
+					old, c.Val = c.Val, S.Parts[0]
+				}
+			}
+			if old != "" && old != S.Parts[0] {
+				c.Inner = renameRoot(c.Inner, old, S.Parts[0])
+				o.count("hazard:value-named-as-collection-root")
+			}
 		}
 		// the unrolling speaks about the value name only
 		valueName := ""
@@ -497,8 +558,11 @@ func fragSpelling(g *Gen, n int, o *Out) {
 	for i := 0; i < n/10+1; i++ {
 		r1, r2 := []string{"r1", "a", "1"}[g.r.Intn(3)], []string{"r2", "b", "2"}[g.r.Intn(3)]
 		datum := map[string]interface{}{"meta": map[string]interface{}{"rack.id": r1, "rack": map[string]interface{}{"id": r2}}, "dc.name": r1, "dc": map[string]interface{}{"name": r2}}
-		pairs := [][2][]string{{{"meta", "rack.id"}, {"meta", "rack", "id"}}, {{"dc.name"}, {"dc", "name"}}}
-		pr := pairs[g.r.Intn(2)]
+		datum["labels"] = map[string]interface{}{"team/env": r1, "team": map[string]interface{}{"env": r2}}
+		datum["a/b"] = r1
+		datum["a"] = map[string]interface{}{"b": r2}
+		pairs := [][2][]string{{{"meta", "rack.id"}, {"meta", "rack", "id"}}, {{"dc.name"}, {"dc", "name"}}, {{"labels", "team/env"}, {"labels", "team", "env"}}, {{"a/b"}, {"a", "b"}}}
+		pr := pairs[g.r.Intn(len(pairs))]
 		mk := func(style int) GExpr {
 			a := GMatch{Path: pr[0], Op: "eq", Raw: r1, SelStyle: style, LitStyle: 2}
 			b := GMatch{Path: pr[1], Op: "eq", Raw: r2, SelStyle: style, LitStyle: 2}
@@ -646,9 +710,44 @@ func hiddenThroughQuantifier(g *Gen, o *Out) {
 	}
 }
 
+// hiddenInEmbedded: hidden / renamed fields of an embedded struct are not reachable by their bare
+// Go name at the enclosing level either.
+func hiddenInEmbedded(g *Gen, o *Out) {
+	mk := func(tok string) Account { return Account{Creds: Creds{Token: tok, APIKey: "k-1", Owner: "alice"}, ID: 1, Ptag: "p"} }
+	for _, tag := range []string{"bexpr", "json"} {
+		var opts []OptSpec
+		if tag != "bexpr" {
+			opts = []OptSpec{{Kind: "tag", Tag: tag}}
+		}
+		for _, e := range []GExpr{
+			GMatch{Path: []string{"Token"}, Op: "eq", Raw: "s3cret", LitStyle: 2},
+			GMatch{Path: []string{"Creds", "Token"}, Op: "eq", Raw: "s3cret", LitStyle: 2},
+			GMatch{Path: []string{"APIKey"}, Op: "matches", Raw: "^k-1$", LitStyle: 3},
+			GAnd{GMatch{Path: []string{"Creds", "Owner"}, Op: "eq", Raw: "alice", LitStyle: 2}, GMatch{Path: []string{"Token"}, Op: "in", Raw: "s3", LitStyle: 2}},
+			GMatch{Path: []string{"Owner"}, Op: "eq", Raw: "alice", LitStyle: 2},
+		} {
+			text, _, ok := g.renderTop(e)
+			if !ok {
+				continue
+			}
+			r1 := evalText(o, opts, text, mk("s3cret"))
+			r2 := evalText(o, opts, text, mk("other"))
+			if r1 != r2 {
+				o.finding(Finding{Property: "C08", Kind: "failing-input", What: fmt.Sprintf("hidden field of an embedded struct is observable under tag %s: %s vs %s", tag, r1, r2), Request: lastReq(o), Detail: text})
+			}
+			k1 := keptPositions(text, []Account{mk("s3cret"), mk("x")})
+			k2 := keptPositions(text, []Account{mk("other"), mk("x")})
+			if tag == "bexpr" && k1 != k2 {
+				o.finding(Finding{Property: "C08", Kind: "failing-input", What: "filter keeps different positions for data differing in a hidden embedded field: " + k1 + " vs " + k2, Detail: text, Request: lastReq(o)})
+			}
+		}
+	}
+}
+
 func fragHidden(g *Gen, n int, o *Out) {
 	optionSliceNotRetained(o)
 	hiddenThroughQuantifier(g, o)
+	hiddenInEmbedded(g, o)
 	tags := []string{"bexpr", "json"}
 	for i := 0; i < n; i++ {
 		tag := tags[g.r.Intn(2)]
@@ -656,7 +755,7 @@ func fragHidden(g *Gen, n int, o *Out) {
 		if tag != "bexpr" {
 			opts = append(opts, OptSpec{Kind: "tag", Tag: tag})
 		}
-		types := []reflect.Type{reflect.TypeOf(HiddenHolder{}), reflect.TypeOf(Outer{}), reflect.TypeOf([]HiddenHolder{}), reflect.TypeOf(map[string]*HiddenHolder{}), reflect.TypeOf(Inner{}), reflect.TypeOf([]*Inner{})}
+		types := []reflect.Type{reflect.TypeOf(Account{}), reflect.TypeOf([]Account{}), reflect.TypeOf(HiddenHolder{}), reflect.TypeOf(Outer{}), reflect.TypeOf([]HiddenHolder{}), reflect.TypeOf(map[string]*HiddenHolder{}), reflect.TypeOf(Inner{}), reflect.TypeOf([]*Inner{})}
 		t := types[g.r.Intn(len(types))]
 		v1 := g.randValue(t, 4)
 		if g.r.Intn(4) == 0 {
@@ -682,7 +781,7 @@ func fragHidden(g *Gen, n int, o *Out) {
 		var paths []PathInfo
 		enumPaths(v1, tag, nil, 4, &paths)
 		// add hidden names explicitly
-		hiddenNames := []string{"Hidden", "secret", "Secret", "AltSec", "priv", "hid", "X", "hid", "Both", "J", "jay", "why", "Y", "Tagged", "vis2", "jvis2", "Opt"}
+		hiddenNames := []string{"Token", "APIKey", "key", "jkey", "Owner", "Creds", "Hidden", "secret", "Secret", "AltSec", "priv", "hid", "X", "hid", "Both", "J", "jay", "why", "Y", "Tagged", "vis2", "jvis2", "Opt"}
 		var withHidden []PathInfo
 		withHidden = append(withHidden, paths...)
 		for _, p := range paths {
@@ -786,6 +885,7 @@ func matrixShapes() []shape {
 		{"[]*int", []*int{&one, &two}}, {"[]*int-nil-elem", []*int{&one, nil}}, {"[]**int", []**int{&pone}}, {"[]*string-nil-elem", []*string{&s, nil}},
 		{"[]interface{}", []interface{}{1, "1", 1.0, true}}, {"[]interface{}-nil-elem", []interface{}{1, nil, "x"}}, {"[]interface{}-ptr", []interface{}{&one, &s}},
 		{"[]interface{}-nilptr", []interface{}{(*int)(nil)}}, {"[]interface{}-struct", []interface{}{Inner{}}}, {"[]interface{}-slice", []interface{}{[]int{1}}},
+		{"[]Octet", []Octet{49}}, {"[]MyUint16", []MyUint16{1}}, {"MyOctets", MyOctets{49}}, {"[][]byte", [][]byte{[]byte("1")}},
 		{"[]string", []string{"1", "a"}}, {"[]byte", []byte("1")}, {"MyBytes", MyBytes("1")}, {"[]MyStr", []MyStr{"1"}}, {"[]bool", []bool{true}},
 		{"[]float32", []float32{1}}, {"[]struct", []Inner{{}}}, {"[][]int", [][]int{{1}}}, {"[]map", []map[string]int{{"1": 1}}}, {"[]chan", []chan int{nil}},
 		{"[]json.Number", []jsonNumber{"1"}}, {"[]uintptr", []uintptr{1}}, {"[]complex", []complex128{1}},
